@@ -13,6 +13,7 @@ import (
 	"github.com/tdewolff/canvas"
 
 	"verifharness/internal/cq"
+	"verifharness/internal/curve"
 	"verifharness/internal/gen"
 	"verifharness/internal/out"
 	"verifharness/internal/pd"
@@ -83,7 +84,15 @@ func main() {
 	n := flag.Int("n", 100, "")
 	only := flag.Int("only", -1, "")
 	open := flag.Bool("open", false, "also generate open subpaths")
+	mode := flag.String("mode", "poly", "poly|curve|fill")
 	flag.Parse()
+	if *mode == "curve" {
+		curveMode(*seed, *n, *only)
+		return
+	} else if *mode == "fill" {
+		fillMode(*seed, *n, *only)
+		return
+	}
 	o := out.New()
 	defer o.Close()
 	root := rng.New(*seed)
@@ -216,4 +225,244 @@ func allTrue(bs []bool) bool {
 		}
 	}
 	return true
+}
+
+
+// ---------------------------------------------------------------------------------------------------------
+// curved paths: Go's queries judged against the winding number of an independent dense sampling of the path
+
+const cub = 24 // grid 2^-24 for the sampled polyline and the query points
+
+func cunits(f float64) int64 { return int64(math.Round(f * (1 << cub))) }
+
+func curvedPath(r *rng.R) (*canvas.Path, string) {
+	g := func(lo, hi int) float64 { return float64(r.Range(lo*4, hi*4)) / 4 }
+	p := &canvas.Path{}
+	switch r.Intn(7) {
+	case 0: // closed chain of quadratics
+		n := r.Range(2, 4)
+		p.MoveTo(g(-8, 8), g(-8, 8))
+		for k := 0; k < n; k++ {
+			p.QuadTo(g(-10, 10), g(-10, 10), g(-8, 8), g(-8, 8))
+		}
+		p.Close()
+		return p, "quads"
+	case 1: // closed chain of cubics
+		n := r.Range(1, 3)
+		p.MoveTo(g(-8, 8), g(-8, 8))
+		for k := 0; k < n; k++ {
+			p.CubeTo(g(-10, 10), g(-10, 10), g(-10, 10), g(-10, 10), g(-8, 8), g(-8, 8))
+		}
+		p.Close()
+		return p, "cubics"
+	case 2: // quarter-round corners: curves with horizontal/vertical end tangents joined to lines
+		w, h, c := g(4, 10), g(4, 10), g(1, 3)
+		p.MoveTo(0, 0)
+		p.LineTo(w-c, 0)
+		if r.Bool() {
+			p.CubeTo(w-c/2, 0, w, c/2, w, c)
+		} else {
+			p.QuadTo(w, 0, w, c)
+		}
+		p.LineTo(w, h)
+		p.LineTo(0, h)
+		p.Close()
+		if r.Bool() {
+			p = p.Reverse()
+		}
+		return p.Translate(g(-6, 0), g(-6, 0)), "round-corner"
+	case 3: // circles and ellipses incl. rotated ones, as two arcs
+		rx, ry := g(1, 8), g(1, 8)
+		rot := rng.Pick(r, []float64{0, 0, 90, 30, 45, 70, 120})
+		cx, cy := g(-3, 3), g(-3, 3)
+		cr, sr := math.Cos(rot*math.Pi/180), math.Sin(rot*math.Pi/180)
+		sweep := r.Bool()
+		p.MoveTo(cx+rx*cr, cy+rx*sr)
+		p.ArcTo(rx, ry, rot, false, sweep, cx-rx*cr, cy-rx*sr)
+		p.ArcTo(rx, ry, rot, false, sweep, cx+rx*cr, cy+rx*sr)
+		p.Close()
+		return p, "ellipse"
+	case 4: // a large and a small arc closed by lines
+		rx, ry := g(2, 8), g(2, 8)
+		p.MoveTo(g(-4, 0), g(-4, 4))
+		p.ArcTo(rx, ry, rng.Pick(r, []float64{0, 20, 90, 135}), r.Bool(), r.Bool(), g(1, 5), g(-4, 4))
+		p.LineTo(g(-8, 8), g(-9, -5))
+		p.Close()
+		return p, "arc-segment"
+	case 5: // mixed
+		p.MoveTo(g(-8, 0), g(-8, 0))
+		p.LineTo(g(0, 8), g(-8, 0))
+		p.QuadTo(g(4, 10), g(-2, 2), g(0, 8), g(0, 8))
+		p.CubeTo(g(-4, 4), g(6, 12), g(-8, 0), g(6, 12), g(-8, 0), g(0, 8))
+		p.Close()
+		return p, "mixed"
+	default: // two curved subpaths, the second possibly inside the first
+		c1 := canvas.Circle(g(4, 8))
+		c2 := canvas.Ellipse(g(1, 3), g(1, 3)).Translate(g(-2, 2), g(-2, 2))
+		if r.Bool() {
+			c2 = c2.Reverse()
+		}
+		return c1.Append(c2), "nested-curves"
+	}
+}
+
+func curveMode(seed uint64, n, only int) {
+	o := out.New()
+	defer o.Close()
+	root := rng.New(seed ^ 0xC06C)
+	for i := 0; i < n; i++ {
+		if only >= 0 && i != only {
+			continue
+		}
+		r := root.Fork(uint64(i))
+		p, fam := curvedPath(r)
+		segs, err := pd.Decode(p.Data())
+		if err != nil || len(segs) == 0 {
+			continue
+		}
+		polys, closed := curve.Sample(segs, 192)
+		if !allTrue(closed) {
+			continue
+		}
+		var flat []string
+		for _, c := range polys {
+			var vs []string
+			for _, v := range c {
+				vs = append(vs, cq.Pair(cq.Z(cunits(v.X)), cq.Z(cunits(v.Y))))
+			}
+			flat = append(flat, cq.List(vs))
+		}
+		// query points
+		type q struct {
+			x, y float64
+			why  string
+		}
+		var qs []q
+		b := p.FastBounds()
+		for k := 0; k < 10; k++ {
+			qs = append(qs, q{b.X0 - 1 + float64(r.Intn(int(4*(b.X1-b.X0+2))))/4 + 1.0/16, b.Y0 - 1 + float64(r.Intn(int(4*(b.Y1-b.Y0+2))))/4 + 1.0/16, "random"})
+		}
+		for _, s := range segs { // level with segment end points and control points, left of the path and inside
+			qs = append(qs, q{b.X0 - 1.5, s.Y, "level-with-endpoint"})
+			if s.Cmd == 'Q' || s.Cmd == 'C' {
+				qs = append(qs, q{b.X0 - 0.75, s.A[1], "level-with-control-point"})
+			}
+			if r.P(1, 2) {
+				qs = append(qs, q{(b.X0 + b.X1) / 2, s.Y, "level-with-endpoint-inside"})
+			}
+		}
+		tb := p.Bounds() // rays tangent to the extrema of the curves
+		qs = append(qs, q{b.X0 - 2, tb.Y1, "tangent-at-top"}, q{b.X0 - 2, tb.Y0, "tangent-at-bottom"}, q{(b.X0 + b.X1) / 2, tb.Y1, "tangent-at-top-mid"})
+		var qsS []string
+		var goD []string
+		var whyD []string
+		for _, qq := range qs {
+			var W, C int
+			var Wb, Cb bool
+			var cont [4]bool
+			msg := safe(func() {
+				W, Wb = p.Windings(qq.x, qq.y)
+				C, Cb = p.Crossings(qq.x, qq.y)
+				for rule := 0; rule < 4; rule++ {
+					cont[rule] = p.Contains(qq.x, qq.y, canvas.FillRule(rule))
+				}
+			})
+			contS := []string{cq.Bool(cont[0]), cq.Bool(cont[1]), cq.Bool(cont[2]), cq.Bool(cont[3])}
+			qsS = append(qsS, fmt.Sprintf("(mkQC06 %s %s %s %s %s %s %s %s)", cq.Z(cunits(qq.x)), cq.Z(cunits(qq.y)), cq.Z(int64(W)), cq.Bool(Wb), cq.Z(int64(C)), cq.Bool(Cb), cq.List(contS), cq.Bool(msg != "")))
+			goD = append(goD, fmt.Sprintf("(%v,%v) %s: W=%d b=%v C=%d b=%v contains=%v panic=%q", qq.x, qq.y, qq.why, W, Wb, C, Cb, cont, msg))
+			whyD = append(whyD, qq.why)
+		}
+		g2 := int64(1) << (2 * (cub - 7)) // (2^-7)^2 in grid units
+		term := fmt.Sprintf("mkCurve06 %s %s %s", cq.List(flat), cq.Z(g2), cq.List(qsS))
+		o.Emit(out.Case{I: i, Fam: fam, Coq: term, Desc: map[string]interface{}{"path": p.String(), "go": goD, "why": whyD}})
+	}
+}
+
+// ---------------------------------------------------------------------------------------------------------
+// CCW and Filling on paths of simple, mutually non-touching polygonal contours
+
+func fillMode(seed uint64, n, only int) {
+	o := out.New()
+	defer o.Close()
+	root := rng.New(seed ^ 0xF111)
+	for i := 0; i < n; i++ {
+		if only >= 0 && i != only {
+			continue
+		}
+		r := root.Fork(uint64(i))
+		// nested / side-by-side convex contours with known interior witnesses
+		type cont struct {
+			pts []gen.IPt
+			wit gen.IPt // in quarter units
+		}
+		var cs []cont
+		k := r.Range(1, 4)
+		x := -20
+		for j := 0; j < k; j++ {
+			if j > 0 && r.P(1, 2) && len(cs) > 0 {
+				// nest inside the previous one: a smaller rectangle around its centre
+				pr := cs[len(cs)-1].pts
+				x0, y0, x1, y1 := pr[0].X, pr[0].Y, pr[0].X, pr[0].Y
+				for _, v := range pr {
+					x0, y0, x1, y1 = min(x0, v.X), min(y0, v.Y), max(x1, v.X), max(y1, v.Y)
+				}
+				if x1-x0 >= 6 && y1-y0 >= 6 {
+					c := gen.Rect(x0+2, y0+2, x1-2, y1-2)
+					if r.Bool() {
+						c = gen.Reverse(c)
+					}
+					cs = append(cs, cont{c, gen.IPt{X: 4*(x0+2) + 1, Y: 4*(y0+2) + 1}})
+					continue
+				}
+			}
+			w, h := r.Range(3, 12), r.Range(3, 12)
+			y := r.Range(-6, 6)
+			c := gen.Rect(x, y, x+w, y+h)
+			if r.P(1, 3) { // a triangle instead
+				c = []gen.IPt{{x, y}, {x + w, y}, {x, y + h}}
+			}
+			if r.Bool() {
+				c = gen.Reverse(c)
+			}
+			cs = append(cs, cont{c, gen.IPt{X: 4*x + 1, Y: 4*y + 1}})
+			x += w + r.Range(1, 3)
+		}
+		p := &canvas.Path{}
+		for _, c := range cs {
+			p.MoveTo(float64(c.pts[0].X), float64(c.pts[0].Y))
+			for _, v := range c.pts[1:] {
+				p.LineTo(float64(v.X), float64(v.Y))
+			}
+			p.Close()
+		}
+		var ccw []string
+		var filling []string
+		msg := safe(func() {
+			for _, sp := range p.Split() {
+				ccw = append(ccw, cq.Bool(sp.CCW()))
+			}
+			for rule := 0; rule < 4; rule++ {
+				var fs []string
+				for _, f := range p.Filling(canvas.FillRule(rule)) {
+					fs = append(fs, cq.Bool(f))
+				}
+				filling = append(filling, cq.List(fs))
+			}
+		})
+		if msg != "" {
+			o.Emit(out.Case{I: i, Fam: "fill-panic", Coq: "", Desc: map[string]interface{}{"path": p.String(), "panic": msg}})
+			continue
+		}
+		var csS, wS []string
+		for _, c := range cs {
+			var vs []string
+			for _, v := range c.pts {
+				vs = append(vs, cq.Pair(cq.Z(int64(4*v.X)), cq.Z(int64(4*v.Y))))
+			}
+			csS = append(csS, cq.List(vs))
+			wS = append(wS, cq.Pair(cq.Z(int64(c.wit.X)), cq.Z(int64(c.wit.Y))))
+		}
+		term := fmt.Sprintf("mkFill06 %s 1%%Z %s %s %s", cq.List(csS), cq.List(wS), cq.List(ccw), cq.List(filling))
+		o.Emit(out.Case{I: i, Fam: fmt.Sprintf("fill-%d", len(cs)), Coq: term, Desc: map[string]interface{}{"path": p.String(), "go_ccw": ccw, "go_filling": filling}})
+	}
 }
